@@ -591,6 +591,7 @@ func worker() *sup.Worker {
 func c15Opts(depth int) gen.Opts {
 	o := gen.Full(depth)
 	o.Unsat = false
+	o.TypedContainers = true
 	return o
 }
 
@@ -613,7 +614,22 @@ func TestPairs(t *testing.T) {
 			rt.Skip("recursive scope (recorded known finding)")
 		}
 		c := Case{A: a}
-		switch rapid.IntRange(0, 9).Draw(rt, "mode") {
+		switch rapid.IntRange(0, 10).Draw(rt, "mode") {
+		case 10:
+			// the same schema with the other representation of its lists / maps of scalars (typed constructor vs
+			// untyped constructor): a matter of Go types, not of what the schema accepts
+			b := clone(a)
+			flipped := 0
+			spec.Walk(b, func(n *spec.Spec) {
+				if spec.TypedContainer(n) {
+					n.Typed = !n.Typed
+					flipped++
+				}
+			})
+			c.Mode, c.Expect, c.B = "retyped", "accept", b
+			if flipped == 0 {
+				c.Mode = "copy"
+			}
 		case 0:
 			c.Mode, c.Expect = "same", "accept"
 		case 1:
